@@ -305,7 +305,7 @@ def gen_widths(tier, rng, ntrees):
         prof = {"nflag": [0, 1, 2], "nopt": [0, 1, 2], "npos": [0, 1], "nsub": [0, 1, 2], "p_nohelp": 0.3}
         c = gen_cmd(rng, ctr, "p", 1, prof)
         sx = cmd_sx(c)
-        ws = range(0, 201) if tier == "thorough" or t < 4 else BOUNDARY_WIDTHS
+        ws = range(0, 201) if tier == "thorough" or t < 10 else BOUNDARY_WIDTHS
         for w in ws:
             cases.append(case_sx(sx, w, "short"))
         if t % 4 == 0:
@@ -412,6 +412,34 @@ def gen_levels(tier, rng, n):
             for kind in ("flag-h", "flag-help", "sub-help"):
                 if rng.random() < 0.6:
                     cases.append(case_sx(sx, rng.choice([0, 30, 80, 100]), which_sx(kind, p)))
+    return cases
+
+
+def gen_boundary(tier, rng):
+    """the three comparisons of arg_next_line_help / subcommand_next_line_help hit exactly: one long-only flag
+    (taken = len(long) + 2 + SHORT_SIZE + 2*TAB) or one subcommand (taken = len(name) + 2*TAB), help of
+    h_w columns, widths around taken, 2.5*taken and taken + h_w"""
+    cases = []
+    for n in ([5, 6, 7, 8, 12, 20, 31] if tier == "quick" else range(5, 48)):
+        for kind in ("arg", "sub"):
+            taken = n + 10 if kind == "arg" else n + 4
+            for h_w in sorted(set([1, taken, (3 * taken) // 2 - 1, (3 * taken) // 2, (3 * taken) // 2 + 1, 3 * taken])):
+                if h_w < 6:
+                    continue
+                helptxt = ("hp01z " + "w" * 400)[:h_w]
+                if helptxt.endswith(" "):
+                    helptxt = helptxt[:-1] + "w"
+                if kind == "arg":
+                    cmd = "(cmd %s (set disable_help_flag) %s)" % (hexs("p"), simple_arg("ar01z", [
+                        "(long %s)" % hexs(("lg01z" + "q" * n)[:n]), "(action settrue)", "(help %s)" % hexs(helptxt)]))
+                else:
+                    cmd = "(cmd %s (set disable_help_flag disable_help_subcommand) (sub (cmd %s (about %s) (set disable_help_flag))))" % (
+                        hexs("p"), hexs(("sc01z" + "n" * n)[:n]), hexs(helptxt))
+                ws = set()
+                for c in (taken, (5 * taken) // 2, (5 * taken + 1) // 2, taken + h_w):
+                    ws.update([c - 1, c, c + 1])
+                for w in sorted(x for x in ws if x >= 0):
+                    cases.append(case_sx(cmd, w, "short"))
     return cases
 
 
@@ -751,10 +779,11 @@ def describe(cases, name):
 
 def streams(tier, rng):
     q = tier == "quick"
-    rnd = gen_random(tier, rng, 700 if q else 9000)
-    wid = gen_widths(tier, rng, 8 if q else 60)
-    adv = gen_adversarial(tier, rng, 300 if q else 4000)
-    lev = gen_levels(tier, rng, 60 if q else 700)
+    rnd = gen_random(tier, rng, 700 if q else 30000)
+    wid = gen_widths(tier, rng, 14 if q else 150)
+    adv = gen_adversarial(tier, rng, 300 if q else 12000)
+    lev = gen_levels(tier, rng, 60 if q else 2000)
+    bnd = gen_boundary(tier, rng)
     out = [
         Stream("help-random", rnd, oracle=oracle, area="help", project=project, nontrivial=nontrivial,
                describe=describe(rnd, "random")),
@@ -764,12 +793,14 @@ def streams(tier, rng):
                describe=describe(adv, "adversarial")),
         Stream("help-levels", lev, oracle=oracle, area="help", project=project, nontrivial=nontrivial,
                describe=describe(lev, "levels")),
+        Stream("help-boundary", bnd, oracle=oracle, area="help", project=project, nontrivial=nontrivial,
+               describe=describe(bnd, "boundary")),
         Stream("help-f32", ["(helpf32 %d %d)" % (t, w) for (t, w) in ([(300, 300)] if q else [(1200, 1200), (70000, 40)])],
                oracle=f32_oracle, area=None, nontrivial=lambda c, r: True),
     ]
     if not q:
-        rnd2 = gen_random(tier, rng, 4000)
-        adv2 = gen_adversarial(tier, rng, 2000)
+        rnd2 = gen_random(tier, rng, 12000)
+        adv2 = gen_adversarial(tier, rng, 6000)
         out += [
             Stream("help-random-release", rnd2, oracle=oracle, area="help", project=project, nontrivial=nontrivial,
                    profile="release", describe=describe(rnd2, "random-release")),
